@@ -12,6 +12,9 @@ from .cxxsym import tinfo
 from .frontend import AnalysisBroken
 
 
+DEFAULT_ARG = ('default-argument',)
+
+
 class LoopBudget(AnalysisBroken):
     """A loop whose condition was decided (uniform) in every iteration ran longer than the interpreter's bound: on the analysed class
     it needs more iterations than any terminating use in this code base -- clients may read this as non-termination."""
@@ -581,6 +584,8 @@ class Interp:
     def expr(self, n, env):
         k = n['kind']
         ch = children(n)
+        if k == 'CXXDefaultArgExpr' and not ch:
+            return DEFAULT_ARG          # the callee's default argument: resolved when the parameters are bound
         if k in ('ParenExpr', 'ExprWithCleanups', 'MaterializeTemporaryExpr', 'CXXBindTemporaryExpr', 'CXXDefaultArgExpr'):
             return self.expr(ch[0], env) if ch else None
         if k == 'ConstantExpr':
@@ -1345,6 +1350,9 @@ class Interp:
         if self.depth > 12:
             raise AnalysisBroken('call depth exceeded in ' + f.qname)
         env = {'this': this, 'locals': {}}
+        argvals = [v for v in argvals]
+        while argvals and argvals[-1] is DEFAULT_ARG:
+            argvals.pop()
         for prm, v in zip(f.params, argvals):
             if '&' not in qt(prm):
                 v = self.consume(v)
@@ -1354,6 +1362,14 @@ class Interp:
             if ti and isinstance(v, IV):
                 v = self.convert(v, ti[0], ti[1], prm)
             env['locals'][prm['id']] = v
+        for prm in f.params[len(argvals):]:
+            # trailing parameters take their default arguments
+            dflt = [c_ for c_ in children(prm) if 'kind' in c_]
+            if dflt:
+                try:
+                    env['locals'][prm['id']] = self.expr(dflt[-1], {'this': this, 'locals': {}})
+                except AnalysisBroken:
+                    pass
         self.depth += 1
         try:
             self.stmt(f.body, env)
